@@ -262,6 +262,59 @@ def c08(tier, seed):
     return res
 
 
+def c14(tier, seed):
+    res = Result("C14", tier, seed, "exploration")
+    wd = workdir("C14")
+    tr = os.path.join(wd, "conebarrier.ndjson")
+    cnt = 2000 if tier == "quick" else 60000
+    p = run_vh(["conebarrier", "--seed", seed, "--count", cnt, "--out", tr], timeout=4 * 3600)
+    meta = json.loads(p.stdout.strip().splitlines()[-1])
+    v = validate_trace("ConeBarrier.tla", "ConeBarrier.cfg", tr, nshards=10, boundary=lambda e: True)
+    if not v["ok"]:
+        from vlib import fdec
+        groups = {}
+        for rj in v["rejects"]:
+            e = rj["event"] or {}
+            ev = e.get("ev")
+            if ev == "NonsymCone":
+                ids = e.get("ids", {})
+                failing = sorted(k for k, (er, tl) in ids.items() if not fdec(er) <= fdec(tl))
+                cls = f"{e.get('cone')}:{'+'.join(failing[:3]) or ('not_interior_or_unscaled' if not (e.get('interior_accepted') and e.get('scaled_ok')) else 'missing_identity_or_mode_' + str(e.get('pd_mode')))}"
+            elif ev == "Membership":
+                cls = f"{e.get('cone')}:membership"
+            elif ev == "Lattice":
+                cls = f"{e.get('cone')}:lattice_membership"
+            else:
+                cls = "panic:" + str(e.get("cone"))
+            groups.setdefault(cls, []).append(e)
+        for cls, evs in list(groups.items())[:15]:
+            e = evs[0]
+            case = {k: e.get(k) for k in ("s", "z", "ds", "dz", "v", "vi", "p", "q") if e.get(k) is not None}
+            case["cone"] = e.get("cone_spec")
+            case["run"] = 0
+            payload = {"kind": "conebarrier-replay", "prop": "C14", "event": {k: e[k] for k in e if k not in ("s", "z", "ds", "dz")}, "count": len(evs),
+                       "spec": "ConeBarrier.tla", "cfg": "ConeBarrier.cfg", "case": case}
+            res.violation("conebarrier-" + cls.replace(":", "_").replace("+", "_")[:70], payload, f"{len(evs)} cone evaluations violate {cls}", key=cls)
+    # vacuity: both branches of the primal-dual scaling and all three kinds of event must have been seen
+    fam = meta.get("by_family", {})
+    if not (meta.get("pd_secant", 0) > 0 and meta.get("pd_fallback", 0) > 0 and fam.get("lattice_membership", 0) > 0
+            and all(fam.get(f"{c}:{k}", 0) > 0 for c in ("Exp", "Pow", "GenPow") for k in ("calculus", "membership", "central"))):
+        raise ToolError(f"C14 recorder did not exercise every family: {meta}")
+    res.coverage = {"evaluations": v["events"], "distinct_nontrivial": v["events"],
+                    "rule": "one evaluation = (a) one nonsymmetric cone (exponential; power with alpha in [0.08, 0.93]; generalised power with 2-3 exponents and 1-3 tail entries) at a generated "
+                            "interior pair (s, z), magnitudes 1e-2..1e2 on either side, with random directions: 13-14 identities (dual gradient / Hessian / third-order term as central "
+                            "differences of the cone's own lower-order quantity, logarithmic homogeneity, primal gradient as derivative of barrier_primal and as conjugate map, primal-dual "
+                            "scaling symmetric positive definite with secant equations or the mu*H fallback, central starting point with mu = 1), each an <<error, tolerance>> pair decided "
+                            "by TLC; (b) one arbitrary real point against the observer's cone definitions; (c) one integer lattice point of a power / generalised power cone with rational "
+                            "exponents, membership in K and K* decided by TLC in exact integer arithmetic",
+                    "by_family": fam, "pd_secant": meta.get("pd_secant"), "pd_fallback": meta.get("pd_fallback"),
+                    "samples": [{k: e.get(k) for k in ("ev", "cone", "pd_mode", "interior_accepted", "p", "q", "vi")} for e in sample(read_ndjson(tr), 3)], "exhaustive": False,
+                    "trusted_base": ["TLC", "FloatOrd", "observer central differences, Cholesky and cone margins", "hook nonsym_cone_battery"]}
+    res.assumptions = ["numerical identities are accepted up to the stated tolerances (1e-5 relative for finite-difference references, 1e-6 for conjugacy, 1e-9 for algebraic laws); "
+                       "generated interior points keep a relative distance of at least ~1e-3 from the boundary; exponents within [0.08, 0.93]"]
+    return res
+
+
 def c19(tier, seed):
     res = Result("C19", tier, seed, "fault_enumeration")
     wd = workdir("C19")
